@@ -57,6 +57,12 @@ class VecFold(Fold):
             n = unwrap(n["sub"])
         if n is not None and n.get("k") == "ref" and n.get("decl") in env and isinstance(env[n["decl"]], EVec):
             return n["decl"]
+        if n is not None and n.get("k") == "member" and is_vec(n.get("type") or "") and unwrap(n.get("obj") or {"k": "this"}).get("k") in ("this", None):
+            key = ("field", show(n))
+            if key not in env:
+                env[key] = EVec(F("at")(S(show(n)), K))
+            if isinstance(env[key], EVec):
+                return key
         return None
 
     def iter_of(self, n, env):
@@ -71,6 +77,17 @@ class VecFold(Fold):
                 if d is not None:
                     return d, short.lstrip("c")
         return None
+
+    def vec_type(self, n):
+        n = unwrap(n)
+        while n is not None and n.get("k") in ("cast", "construct") and (n.get("sub") is not None or n.get("args")):
+            n = unwrap(n["sub"] if n.get("k") == "cast" else n["args"][0])
+        if n is not None and n.get("k") == "mcall" and n.get("obj") is not None:
+            o = unwrap(n["obj"])
+            while o.get("k") == "cast":
+                o = unwrap(o["sub"])
+            return o.get("type") or ""
+        return ""
 
     def havoc(self, decl, node, why):
         nm = "havoc:%s@%s" % (self.keyname(decl), node.get("id"))
@@ -117,6 +134,13 @@ class VecFold(Fold):
             return
         return super().stmt(s, env)
 
+    def ev_member(self, n, env):
+        if is_vec(n.get("type") or ""):
+            key = self.vec_decl_of(n, env)
+            if key is not None:
+                return env[key]
+        return super().ev_member(n, env)
+
     def ev_ref(self, n, env):
         if n.get("dk") in ("local", "param", "staticlocal") and is_vec(n.get("type") or "") and n.get("decl") not in env:
             env[n["decl"]] = EVec(F("at")(S(n["name"]), K))
@@ -127,6 +151,11 @@ class VecFold(Fold):
         k = lhs.get("k")
         if k == "ref" and lhs.get("dk") in ("local", "param", "staticlocal") and is_vec(lhs.get("type") or ""):
             env[lhs["decl"]] = self.wrap(val, lhs["name"])
+            return
+        if k == "member" and is_vec(lhs.get("type") or ""):
+            key = ("field", show(lhs))
+            env[key] = self.wrap(val, show(lhs))
+            self.event({"kind": "store", "target": show(lhs), "field": lhs.get("field"), "value": val, "node": node}, env)
             return
         # element store  Y[i] = v
         base = idx = None
@@ -144,8 +173,7 @@ class VecFold(Fold):
                     env[d] = EVec(val)
                 else:
                     env[d] = self.havoc(d, node, "element store at index %s" % (iv,))
-                self.events.append({"kind": "store", "target": show(lhs), "target_node": lhs, "value": val,
-                                    "guards": list(self.guards), "node": node})
+                self.event({"kind": "store", "target": show(lhs), "target_node": lhs, "value": val, "node": node, "idx": [iv]}, env)
                 return
         super().store(lhs, val, env, node)
 
@@ -158,6 +186,11 @@ class VecFold(Fold):
             its = [self.iter_of(a, env) for a in args_n]
             if short == "accumulate" and len(args_n) == 3 and its[0] and its[1] and its[0][0] == its[1][0] and (its[0][1], its[1][1]) == ("begin", "end"):
                 init = self.ev(args_n[2], env)
+                rt = (n.get("type") or n.get("ret") or "").replace("const ", "").strip()
+                vt = self.vec_type(args_n[0])
+                if rt in ("int", "long", "unsigned int", "unsigned long", "short", "char", "bool", "votca::Index", "size_t") and re.search(r"double|float", vt):
+                    # the accumulator has the type of the initial value: an integral init truncates every partial sum
+                    return init + F("INT_SUMK")(env[its[0][0]].e.xreplace({K: KB}))
                 return init + SUMK(env[its[0][0]].e.xreplace({K: KB}))
             if short == "copy" and len(args_n) == 3 and its[0] and its[1] and its[2] and its[0][0] == its[1][0] \
                     and (its[0][1], its[1][1], its[2][1]) == ("begin", "end", "begin"):
@@ -323,23 +356,7 @@ class VecFold(Fold):
             env[c] = self.havoc(c, s, "written in a loop that is not element-wise")
 
 
-def resolve_ite(e, choose):
-    """replace ite(c, a, b) by a / b where choose(str(c)) is True / False (None keeps the ite)"""
-    def rec(x):
-        if not getattr(x, "args", None):
-            return x
-        args = [rec(a) for a in x.args]
-        if str(getattr(x, "func", "")) == "ite" and len(args) == 3:
-            r = choose(str(args[0]))
-            if r is True:
-                return args[1]
-            if r is False:
-                return args[2]
-        try:
-            return x.func(*args)
-        except Exception:
-            return x
-    return rec(e)
+from .cases import resolve_ite  # noqa: E402  (kept importable from here)
 
 
 def havoc_atoms(e):
